@@ -84,7 +84,7 @@ func TestC05(t *testing.T) {
 	}
 	newDest := func(local bool) storage.Store {
 		if local {
-			m := afero.NewMemMapFs()
+			m := newSafeMemMapFs()
 			_ = m.MkdirAll("/base", 0o755)
 			return localfs.New(afero.NewBasePathFs(m, "/base"), localfs.WithRetry(false), localfs.WithLogger(nopLogger))
 		}
